@@ -5,6 +5,12 @@ E1 explicit-state search.  state = attached databases / schemas / tables with ro
                            transition = FakeSnow.connect(database=?, schema=?) with every argument combination
                            initial states = complete product flags x storage x prior state (36 configurations)
                            histories = sequences of 1..3 connects, deduplicated on the state they reach
+                           + statements issued between two connects through an existing session (DROP SCHEMA /
+                             CREATE SCHEMA / DROP TABLE, qualified via the first session and unqualified via the latest
+                             one): histories connect -> statement -> connect, so that anything an instance remembers
+                             about earlier connects meets a catalog that has changed since. The statement itself is not
+                             judged (C03/C07); the model adopts the catalog found after it, and the option table is
+                             applied to the connect that follows with that catalog as prior state.
 Every history is executed on a fresh real instance (fresh directory for db_path); the reference model (the option
 table OPTION_TABLE_DOC / Model.connect below, written from the property statement, not from conn.py) is stepped in
 lock-step and compared after the last connect through two windows: reported (connect outcome, conn.database,
@@ -37,6 +43,8 @@ Not demanded
   * that a table can be created in INFORMATION_SCHEMA (Snowflake refuses): for schema=information_schema the first
     unqualified statement is `select count(*) from schemata`, demanded only to succeed (count not compared).
   * sqlstate / message of 90105 / 90106 (C07's subject): only ProgrammingError + errno.
+  * how an earlier session whose current schema was dropped by a statement step behaves once a later connect creates
+    that schema again (it may find it again: not a disturbance; every other earlier session must behave as before).
   * macros / _fs_* bookkeeping objects (fakesnow internals, hidden from the user view).
 """
 from __future__ import annotations
@@ -65,9 +73,35 @@ CONFIGS = tuple((cd, cs, st, pr) for cd, cs in FLAGS for st in STORAGES for pr i
 # one spelling of each of the 6 distinct (database, schema) requests (letter case is local to one connect call; it is
 # covered completely by the steps that use CONNECT_ARGS)
 CANON_ARGS = ((None, None), (None, "s1"), (None, "information_schema"), ("db1", None), ("DB1", "S1"), ("Db1", "information_schema"))
-# alphabet of the k-th connect of a history, per tier. quick: 576 first connects + second connect over CANON_ARGS;
-# thorough: first and second connect over the complete alphabet, third over CANON_ARGS
-STEP_ALPHABETS = {"quick": (CONNECT_ARGS, CANON_ARGS), "thorough": (CONNECT_ARGS, CONNECT_ARGS, CANON_ARGS)}
+# statements issued between two connects through an *existing* session (a history step ("$", id)), so that whatever an
+# instance remembers about earlier connects is confronted with a catalog that has changed since:
+#   id -> (issuing session: "first" = s0 (context OTHER.SO), "last" = the most recently connected live session, SQL)
+STATEMENTS = {
+    "drop_schema_q": ("first", "drop schema db1.s1"),
+    "create_schema_q": ("first", "create schema db1.s1"),
+    "drop_table_q": ("first", "drop table db1.s1.t0"),
+    "drop_schema_u": ("last", "drop schema s1"),
+    "create_schema_u": ("last", "create schema s1"),
+    "drop_table_u": ("last", "drop table t0"),
+}
+STATEMENT_IDS = tuple(STATEMENTS)
+# the connects tried right after a statement in the quick tier: the pair again, and the database alone
+AFTER_STATEMENT_QUICK = (("DB1", "S1"), ("db1", None))
+# step k of a history, per tier: "connect" = connect alphabet from states whose last step is a connect, "stmt" =
+# statement alphabet from those states (a statement is never followed by a statement), "after_stmt" = connect
+# alphabet from states whose last step is a statement (default: same as "connect")
+PLAN = {
+    "quick": (
+        {"connect": CONNECT_ARGS},
+        {"connect": CANON_ARGS, "stmt": STATEMENT_IDS},
+        {"after_stmt": AFTER_STATEMENT_QUICK},
+    ),
+    "thorough": (
+        {"connect": CONNECT_ARGS},
+        {"connect": CONNECT_ARGS, "stmt": STATEMENT_IDS},
+        {"connect": CANON_ARGS, "after_stmt": CANON_ARGS},
+    ),
+}
 
 INFO = "INFORMATION_SCHEMA"  # exists in every database (Snowflake: every database has INFORMATION_SCHEMA)
 
@@ -138,6 +172,45 @@ class Model:
         else:
             self.cat[d] = self.disk.setdefault(d, {})
         self.ever_attached.add(d)
+
+    def adopt(self, observed):
+        """After a statement step the prior state of the next connect is whatever the catalog is now (the effect of
+        the statement itself is not C14's subject). In place, so that cat and disk keep sharing attached databases."""
+        if set(observed) != set(self.cat):
+            raise core.HarnessError(f"C14: a statement step changed the set of databases: {sorted(self.cat)} -> {sorted(observed)}")
+        for d, sch in observed.items():
+            self.cat[d].clear()
+            self.cat[d].update(copy.deepcopy(sch))
+
+    def last_session(self):
+        for i in range(len(self.sessions) - 1, 0, -1):
+            if self.sessions[i]["alive"]:
+                return i
+        return None
+
+    def enabled_statements(self):
+        """Statements of STATEMENTS that can change the catalog in this state (only these are worth a transition)."""
+        out = []
+        db1 = self.cat.get("DB1")
+        li = self.last_session()
+        ls = self.sessions[li] if li is not None else None
+        for sid, (who, _sql) in STATEMENTS.items():
+            kind = sid.rsplit("_", 1)[0]
+            if db1 is None:
+                continue
+            if kind == "drop_schema" and "S1" not in db1:
+                continue
+            if kind == "create_schema" and "S1" in db1:
+                continue
+            if kind == "drop_table" and "T0" not in db1.get("S1", {}):
+                continue
+            if who == "last":
+                if ls is None or not ls["has_db"] or ls["database"] != "DB1":
+                    continue
+                if kind == "drop_table" and not (ls["has_schema"] and ls["schema"] == "S1"):
+                    continue
+            out.append(sid)
+        return tuple(out)
 
     def key(self):
         def c(cat):
@@ -358,6 +431,14 @@ class Live:
             self.m.sessions[-1].update(has_db=False, has_schema=False, alive=False)
         return got, exp
 
+    def statement(self, sid):
+        """A statement step through an existing session; afterwards the model takes the catalog from ground truth."""
+        who, sql = STATEMENTS[sid]
+        i = 0 if who == "first" else self.m.last_session()
+        out = "no_session" if i is None else stmt_kind(self.sessions[i], sql)
+        self.m.adopt(real_catalog(self.fs))
+        return (i, sql, out)
+
     def probes(self):
         """First unqualified statements on every live session (mutating: only at the end of a history)."""
         kinds = []
@@ -440,6 +521,13 @@ def run_trace(cfg, hist, parent_obs, judge_last=True):
                 last_sessions = check_fixture(cfg, live)["sessions"]
             for step, (database, schema) in enumerate(hist):
                 last = step == len(hist) - 1
+                if database == "$":
+                    done = live.statement(schema)
+                    if last:
+                        post = live.observe()
+                        last_sessions = post["sessions"]
+                        info = {"statement": done, "post": post}
+                    continue
                 if not last:
                     live.connect(database, schema)
                     continue
@@ -459,8 +547,9 @@ def run_trace(cfg, hist, parent_obs, judge_last=True):
             if not hist:
                 if obs[0] != m.expected_probe(0):
                     raise core.HarnessError(f"C14 fixture: first session's unqualified statements gave {obs[0]} in {cfg}")
-            elif judge_last:
-                judge_probes(hist, live, obs, parent_obs, info.get("shape", ""), findings)
+            elif judge_last and hist[-1][0] != "$":
+                judge_probes(hist, live, obs, parent_obs, info.get("shape", ""), findings, info.get("expected"), info["post"]["sessions"])
+            info["enabled_statements"] = m.enabled_statements()
             key = None if diverged else (m.key(), tuple(last_sessions), obs)
             info["model_sessions"] = [dict(x) for x in m.sessions]
             info["model_cat"] = copy.deepcopy(m.cat)
@@ -547,7 +636,7 @@ def judge_connect(cfg, hist, live, pre_model, pre, post, got, exp, shp, findings
     return diverged
 
 
-def judge_probes(hist, live, obs, parent_obs, shp, findings):
+def judge_probes(hist, live, obs, parent_obs, shp, findings, exp=None, reported=None):
     m = live.m
     n = len(live.sessions)
     rp_detail = {"config": live.cfg, "history": hist}
@@ -570,9 +659,20 @@ def judge_probes(hist, live, obs, parent_obs, shp, findings):
     # earlier sessions: same behaviour as in the history without the last connect
     if parent_obs is not None:
         for i in range(min(last, len(parent_obs))):
+            if exp and reported and reported[i] and _names_created(reported[i][:2], exp):
+                # not demanded: a session whose reported database/schema had been dropped from under it (statement
+                # step) and is created again by this connect may find it again - that is no disturbance
+                continue
             if obs[i] != (tuple(_tup(parent_obs[i])) if parent_obs[i] is not None else None):
                 who = "first" if i == 0 else "earlier"
                 findings.append(("C14.undisturbed", f"{shp},session={who},first_unqualified_statements", dict(rp_detail, before=parent_obs[i], after=obs[i], session_index=i)))
+
+
+def _names_created(names, exp):
+    """Does (database, schema) reported by an earlier session name an object this connect created?"""
+    if exp.get("created_db") and names[0] == exp["database"]:
+        return True
+    return bool(exp.get("created_schema")) and names == (exp["database"], exp["schema"])
 
 
 def _tup(x):
@@ -586,8 +686,17 @@ def explore(item, acc: core.Acc, tier):
     acc.count("evaluations")
     acc.count("traces")
     info = r["info"]
-    if hist:
+    if hist and hist[-1][0] == "$":
+        # a statement transition: nothing is judged, the state it reaches is the prior state of the next connect
         acc.count("transitions")
+        acc.count("statement_transitions")
+        post = info["post"]
+        acc.obs((cfg, hist, info["statement"], sorted(map(repr, post["cat"].items())), post["sessions"], post["files"], r["obs"]))
+        acc.outcome(("$", hist[-1][1], info["statement"][2]))
+    elif hist:
+        acc.count("transitions")
+        if any(st[0] == "$" for st in hist):
+            acc.count("connects_after_a_statement")
         exp = info["expected"]
         post = info["post"]
         acc.obs((cfg, hist, info["outcome"][:4], sorted(map(repr, post["cat"].items())), post["sessions"], post["files"], post["cwd"], r["obs"]))
@@ -603,31 +712,47 @@ def explore(item, acc: core.Acc, tier):
         acc.member(clause, cls, failed)
     for clause, cls, detail in r["findings"]:
         acc.violation(clause, cls, detail, {"config": cfg, "history": hist, "parent_obs": parent_obs})
-    return {"key": r["key"], "obs": r["obs"]}
+    return {"key": r["key"], "obs": r["obs"], "stmts": info["enabled_statements"]}
+
+
+def successors(plan_step, hist, enabled):
+    """The transitions explored from a state at one step of the plan."""
+    if hist and hist[-1][0] == "$":
+        return tuple(plan_step.get("after_stmt", plan_step.get("connect", ())))
+    if "connect" not in plan_step and "stmt" not in plan_step:
+        return ()
+    return tuple(plan_step.get("connect", ())) + tuple(("$", sid) for sid in plan_step.get("stmt", ()) if sid in enabled)
 
 
 def run(ctx: core.Ctx):
-    steps = STEP_ALPHABETS[ctx.tier]
-    depth = len(steps)
+    plan = PLAN[ctx.tier]
+    depth = len(plan)
+    sizes = "; ".join(
+        f"step {i + 1}: " + ", ".join(f"{k}={len(v)}" for k, v in sorted(st.items())) for i, st in enumerate(plan)
+    )
     ctx.rule = (
         "explicit-state search: initial states = complete product flags(2x2) x storage(memory, db_path fresh, db_path "
         "with a previous instance's files) x prior(nothing, database, database+schema) = 36; transitions = connect with "
-        "every (database, schema) of the written-out 4x4 alphabet ("
-        + ", then ".join(f"{len(a)} argument combinations" for a in steps)
-        + f" for connect 1..{depth} of a history); histories of 1..{depth} connects, deduplicated on the state reached (model catalog + disk + session contexts, DuckDB-level "
-        "session context, outcomes of the sessions' first unqualified statements); every history runs on a fresh real "
-        "instance and is judged after its last connect; non-trivial = the option table creates something, or leaves "
-        "the session without current database/schema, or connect raised"
+        "(database, schema) from the written-out 4x4 alphabet, or a statement (DROP SCHEMA / CREATE SCHEMA / DROP TABLE, "
+        "qualified through the first session or unqualified through the latest session) that the model says changes the "
+        f"catalog; alphabet sizes per step: {sizes}; a statement is always followed by a connect; histories are "
+        "deduplicated on the state reached (model catalog + disk + session contexts, DuckDB-level session context, "
+        "outcomes of the sessions' first unqualified statements); every history runs on a fresh real instance; a history "
+        "ending in a connect is judged after that connect with the option table applied to the catalog as it is then "
+        "(after a statement: taken from ground truth); non-trivial = the option table creates something, or leaves the "
+        "session without current database/schema, or connect raised"
     )
     ctx.assumptions = [
         "ground truth is read through a raw DuckDB cursor (mc/observe.py) and os.listdir",
         "a database 'exists' when it is attached in the instance; whether create_database_on_connect=False attaches an "
         "existing database file is not demanded (taken from ground truth, everything else demanded consistently)",
         "the first session's context comes from USE SCHEMA (C03's subject); a broken fixture is a harness error",
+        "the effect of a statement step is not judged (C03/C07): the model adopts the catalog found after it",
     ]
     ctx.extra["alphabet"] = {
         "canonical_spellings": [list(a) for a in CANON_ARGS],
-        "alphabet_size_per_step": [len(a) for a in steps],
+        "statements": {k: list(v) for k, v in STATEMENTS.items()},
+        "plan": [{k: len(v) for k, v in st.items()} for st in plan],
         "database": list(DATABASE_ARGS),
         "schema": list(SCHEMA_ARGS),
         "flags": [list(f) for f in FLAGS],
@@ -640,12 +765,11 @@ def run(ctx: core.Ctx):
     seen = set()
     for (cfg, hist, _p), out in sorted(res, key=lambda x: repr(x[0])):
         seen.add((cfg, out["key"]))
-        frontier.append((cfg, hist, out["obs"]))
+        frontier.append((cfg, hist, out["obs"], out["stmts"]))
     complete = True
     first_connects = 0
     for d in range(1, depth + 1):
-        alphabet = steps[d - 1]
-        items = [(cfg, tuple(hist) + (a,), obs) for cfg, hist, obs in frontier for a in alphabet]
+        items = [(cfg, tuple(hist) + (a,), obs) for cfg, hist, obs, stmts in frontier for a in successors(plan[d - 1], hist, stmts)]
         if d == 1:
             first_connects = len(items)
         res = ctx.pmap(explore, items, recheck=(d == 1))
@@ -654,22 +778,18 @@ def run(ctx: core.Ctx):
             if out["key"] is None:
                 complete = False  # diverged: nothing behind it is explored
                 continue
-            cands.append((cfg, out["key"], hist, out["obs"]))
+            cands.append((cfg, out["key"], hist, out["obs"], out["stmts"]))
         cands.sort(key=lambda x: (repr(x[0]), repr(x[1]), len(x[2]), repr(x[2])))
         frontier = []
-        for cfg, key, hist, obs in cands:
+        for cfg, key, hist, obs, stmts in cands:
             if (cfg, key) not in seen:
                 seen.add((cfg, key))
-                frontier.append((cfg, hist, obs))
+                frontier.append((cfg, hist, obs, stmts))
         ctx.acc.counters["max_depth"] = d
     for s in sorted(map(repr, seen)):
         ctx.acc.add("states", s)
     ctx.extra["first_connects_complete_product"] = first_connects
-    ctx.extra["bound"] = (
-        f"histories of up to {depth} connects from each of {len(CONFIGS)} configurations; argument combinations per step: "
-        + "/".join(str(len(a)) for a in steps)
-        + " (16 = complete 4x4 alphabet, 6 = one spelling per distinct request)"
-    )
+    ctx.extra["bound"] = f"histories of up to {depth} steps from each of {len(CONFIGS)} configurations; {sizes}"
     ctx.extra["frontier_left_unexpanded"] = len(frontier)
     ctx.exhaustive = bool(complete)
 
